@@ -589,6 +589,9 @@ def ov_skip_member(d):
     k = 0
     for ml in members_lists(d):
         for i in range(len(ml)):
+            # the codec's own derive does not accept skip together with compact / encoded_as on one member
+            if ml[i].compact or ml[i].encoded_as or ml[i].skip:
+                continue
             c = d.clone()
             members_lists(c)[k][i].skip = True
             c.overlays.append('codec(skip) on member %d/%d' % (k, i))
